@@ -9,34 +9,34 @@ ids = [p['id'] for p in props]
 T_BX = 'bounded-exhaustive enumeration of a finite input universe on the real code (explicit-state, no sampling), '
 CHECKS = {
  'C01': ('BX', 'model_checking', T_BX + 'differential against the public per-rule matcher + independent precedence combiner',
-   'All ordered lists of <= 2 (quick) / <= 3 (thorough) rules of a 50-rule alphabet (one rule per shortcut of the token index) are built into real engines and queried with a request universe in which every rule token occurs as whole token, proper suffix, proper prefix, first and last; every verdict field is compared with rule-by-rule evaluation. Exhaustive within the bound.',
+   'All ordered lists of <= 2 (quick) / <= 3 (thorough) rules of a 61-rule alphabet (one rule per shortcut of the token index, twins that differ in one attribute a dedup key could miss, hosts lines) are built into real engines and queried under every tag subset with a request universe in which every rule token occurs as whole token, proper suffix, proper prefix, first and last; bucket-forcing lists store each rule under each of its tokens in turn; a frozen corpus of 3 613 real rules is loaded as one list against URLs derived from every rule; every verdict field is compared with rule-by-rule evaluation. Exhaustive within the bound.',
    'Per-rule match is taken from the real NetworkFilter::matches (its correctness is C02/C03); combiner, redirect, removeparam and CSP references are independent. seahash collision freedom checked for the alphabet.', 'DESIGN §4 C01'),
  'C02': ('BX', 'model_checking', T_BX + 'compared with an independent reference pattern matcher',
-   'Every pattern body up to length 6 (quick) / 7 (thorough) over {a,b,.,/,*,^} in all six anchor modes is parsed by the real parser and matched by the real matcher against every URL of a universe built to make the anchor text collide (repeated, prefix, suffix, userinfo); each verdict is compared with a 100-line reference written from the property text; weakening relations and a curated full-regex universe are added.',
-   'Reference matcher trusted (calibrated: agrees with the real matcher on everything outside the recorded defect D2). regex crate trusted for full-regex rules. Spellings the property leaves open are executed but not compared.', 'DESIGN §4 C02'),
+   'Every pattern body up to length 6 (quick) / 7 (thorough) over {a,b,.,/,*,^} in eight anchor modes (none, |, trailing |, both, ||, || with trailing |, and two scheme-prefixed left anchors) is parsed by the real parser and matched by the real matcher against every URL of a universe built to make the anchor text collide (repeated, prefix, suffix, userinfo); each verdict is compared with a 100-line reference written from the property text; weakening relations and a curated full-regex universe are added.',
+   'Reference matcher trusted (calibrated: agrees with the repaired matcher on the whole universe). regex crate trusted for full-regex rules. Spellings the property leaves open are executed but not compared.', 'DESIGN §4 C02'),
  'C03': ('BX', 'model_checking', T_BX + 'compared with an independent option predicate over an option AST',
-   'The whole type x party x scheme cube (every purely positive / purely negated type list, document, 7 party spellings, exception, important, scheme-pinned forms) and the domain-list x initiator cube are enumerated against all request type strings, schemes and initiators, at the matcher and on single-rule engines.',
+   'The whole type x party x scheme cube (every purely positive / purely negated type list, document, 7 party spellings, exception, important, scheme-pinned forms), the domain-list x initiator cube and long domain lists (cube E: union pre-filters) are enumerated against all request type strings, schemes and initiators, at the matcher and on single-rule engines.',
    'Mixed positive+negated type lists, positive domain= with absent initiator, |ws:// vs wss:// are Unspecified.', 'DESIGN §4 C03'),
  'C04': ('BX', 'model_checking', T_BX + 'precedence reference + monotonicity relation + alias-normalising badfilter oracle',
    'Every base list x extra rule x insertion position (two real engines each) is checked for blocked==spec and both monotonicity implications; every ordered pair of 188 rule spellings is checked for badfilter cancellation against an oracle that normalises aliases and option order.',
    'Tag differences between a rule and its badfilter twin, and semantically-equal-but-textually-different type lists, are outside the domain.', 'DESIGN §4 C04'),
  'C05': ('BX', 'model_checking', T_BX + 'differential between three configurations of the real code (optimised at build, unoptimised, optimize() on the live blocker)',
-   'All ordered lists <= 2 / unordered lists of 3 (quick; +1 thorough) over a 40-rule alphabet whose rules share buckets and differ in one fusion-relevant attribute, under every tag subset, against 240 requests.',
+   'All ordered lists <= 2 / unordered lists of 3 (quick; +1 thorough) over a 56-rule alphabet whose rules share buckets (including the wildcard bucket of token-less rules) and differ in one fusion-relevant attribute or one mask bit, under every tag subset, against 330 requests.',
    'The unoptimised engine is the reference (its own correctness is C01).', 'DESIGN §4 C05'),
  'C06': ('HX', 'model_checking', 'exhaustive enumeration of operation histories up to a depth on fresh real subjects under a deterministic LIFO allocator, step-by-step comparison with a freshly built engine for the model state',
-   'Three scenarios (tags + regex cache + serialisation on an Engine; add_filter + optimize on a Blocker; cosmetic + scriptlet resources); every history of depth 5/4/5 (quick) or 6/5/6 (thorough) whose last operation is a query is executed; environment answers (cleanup timer fired, regex discarded) are operations of the alphabet.',
+   'Four scenarios (tags + regex cache + serialisation on an Engine; add_filter + optimize on a Blocker; cosmetic + scriptlet resources; batch vs incremental construction); every history of depth 5/4/5 (quick) or 6/5/6 (thorough) whose last operation is a query is executed (S1: every operation at depth d-1, the core operations at depth d); environment answers (cleanup timer fired, regex discarded) are operations of the alphabet; failing histories are shrunk before classification.',
    'Hash-map iteration order inside the engine is not controlled; violating histories are re-executed twice and under a never-reuse allocator.', 'DESIGN §4 C06'),
  'C07': ('BX+HX', 'model_checking', 'exhaustive enumeration of rule subsets x tag sets and of tag-operation histories on real engines, compared with a set-algebra model and a tag-stripped reference engine',
-   'All 512 subsets of a 9-rule pool x optimise x 8 tag sets; all sequences of <= 3 (quick) / 4 (thorough) of 28 tag/deserialize operations on 4 lists; tag_exists after every step, full battery at the end.',
+   'All 2 048 subsets of an 11-rule pool (every category a tag combines with, same-bucket untagged neighbours) x optimise x 8 tag sets; all sequences of <= 3 (quick) / 4 (thorough) of 28 tag/deserialize operations on 4 lists; tag_exists after every step, full battery at the end.',
    'The tag-stripped reference engine is built by the same crate (differential).', 'DESIGN §4 C07'),
  'C08': ('BX', 'model_checking', T_BX + 'differential between the original engine and the engine reloaded from its serialisation, field by field',
-   'All ordered lists of <= 2 (quick) / <= 3 (thorough) rules of an 84-rule alphabet (every network and cosmetic rule shape) x debug x optimise x list permission, serialised and loaded into three kinds of loader, compared on 398 queries (network under every tag subset, CSP, cosmetic, class/id).',
-   'Two format limitations are recorded as open known findings (removeparam rules and scriptlet permissions are not serialised); they are recognised only when the reloaded engine equals an engine built without those rules / with permission 0.', 'DESIGN §4 C08'),
+   'All ordered lists of <= 2 (quick) / <= 3 (thorough) rules of an 87-rule alphabet (every network and cosmetic rule shape, twins) x debug x optimise x list permission (including mixed-permission lists), serialised and loaded into three kinds of loader, compared on 398 queries (network under every tag subset, CSP, cosmetic, class/id).',
+   'The two format defects found by this check (removeparam rules and scriptlet permissions were not serialised) are repaired in /repo (fix: 7c0000a, ade9355); their witnesses are replayed on every run.', 'DESIGN §4 C08'),
  'C09': ('BX', 'model_checking', T_BX + 'byte equality of repeated, cross-thread and cross-process serialisations; reload fixpoint',
    'Same lists as C08 plus 458 wide lists (>= 4 entries per internal container); every list is built and serialised 6 (quick) / 12 (thorough) times, once in a fresh thread and (every 16th list / every wide list) in a child process; every buffer is reloaded and re-serialised.',
    'Inputs exhaustive to the bound; hash seeds of std HashMap are redrawn, not enumerable: exhaustive=false is reported for that dimension.', 'DESIGN §4 C09'),
  'C10': ('FX', 'fault_enumeration', 'exhaustive fault enumeration (every prefix, every single-bit flip, every structural-byte substitution, huge-length splices, header variants) of valid serialized buffers, each loaded in a child process under an allocation and time ceiling',
-   '4 (quick) / 12 (thorough) valid buffers; 52k / 139k faults; post-conditions: no panic or abort, bounded allocation, atomicity on error (battery + serialisation unchanged), usability on success (battery built from the buffer strings + re-serialisation).',
+   '4 (quick) / 12 (thorough) valid buffers; every prefix, bit flip, structural substitution, huge length, version byte, string replacement, header variant; thorough adds substitution pairs and bit-flip pairs; cross-overs between two valid buffers at every pair of structural offsets; post-conditions: no panic or abort, bounded allocation, atomicity on error (battery + serialisation unchanged), usability on success (battery built from the buffer strings + re-serialisation).',
    'Allocations <= 2 KiB are not counted towards the 64 MiB ceiling.', 'DESIGN §4 C10'),
  'C11': ('BX', 'model_checking', T_BX + 'totality (no panic) + differential (list vs list minus rejected lines; hosts line vs ||host^)',
    'Every string of <= 4 (quick) / 5 (thorough) symbols over a 22-symbol structural alphabet through all parser entry points, the single-edit neighbourhood of 145 real rule spellings, metadata cut-off alignments, line independence on all lists of <= 3/4 good+junk lines, hosts-format equivalence, rule-type options.',
@@ -45,14 +45,14 @@ CHECKS = {
    'All strings of <= 5 (quick) / 6 (thorough) symbols over an 18-symbol URL alphabet behind 6 prefixes (1.2e7 / 2.2e8) for totality and internal consistency; a structured universe of 32 256 (quick) / 950 400 (thorough) URLs x initiators x types for host, party, scheme, type and preparsed equality.',
    'Upper-case hosts, control characters in the authority and hosts the url crate canonicalises are Unspecified for host extraction and party.', 'DESIGN §4 C12'),
  'C13': ('BX', 'model_checking', T_BX + 'compared with the redirect selection rule written from the property text (set-valued on ties)',
-   'All ordered lists of <= 3 rules (thorough: + lists of 4 starting with an a-spelling) of a 48-rule redirect alphabet (every resource kind, priority spelling, exceptions) x two resource stores x 5 requests.',
+   'All ordered lists of <= 3 rules (thorough: all lists of 4) of a 48-rule redirect alphabet (every resource kind, priority spelling, exceptions) x two resource stores x 7 requests (.com, .org and absent initiators); per-rule applicability both from the real matcher and from an independent predicate.',
    'Exception naming the same resource with a different priority suffix, and whether a redirect exception unblocks, are Unspecified.', 'DESIGN §4 C13'),
  'C14': ('BX', 'model_checking', T_BX + 'byte-for-byte comparison with an independent query-string surgery reference',
-   'URL = fixed prefix + every string of length <= 6 (quick) / 8 (thorough) over {?,#,&,=,a,b,e-acute} x every set of <= 2/3 rules of a 7-rule pool x 5 request types x 2 initiators.',
-   'Per-rule applicability from the real matcher (differential).', 'DESIGN §4 C14'),
+   'URL = fixed prefix + every string of length <= 6 (quick) / 8 (thorough) over {?,#,&,=,a,b,e-acute}, and <= 5 / 6 over a second alphabet with upper case and a multi-character key, x every set of <= 2/3 rules of a 10-rule pool x 5 request types x 2 initiators.',
+   'Per-rule applicability from the real matcher and, independently, from a predicate written from the rule text.', 'DESIGN §4 C14'),
  'C15': ('BX', 'model_checking', T_BX + 'compared with CSP set algebra written from the property text; all list orders enumerated',
-   'All ordered lists of <= 3 (quick) / 4 (thorough) rules of a 24-rule csp alphabet, every tag subset, 8 URLs x all 19 request-type strings.',
-   'Per-rule applicability from the real matcher (differential).', 'DESIGN §4 C15'),
+   'All ordered lists of <= 3 (quick) / 5 (thorough) rules of a 24-rule csp alphabet, every tag subset, 8 URLs x all 19 request-type strings.',
+   'Per-rule applicability from the real matcher and, independently, from a predicate written from the rule text.', 'DESIGN §4 C15'),
  'C16': ('BX', 'model_checking', T_BX + 'compared with an independent string-level scoping model (no hashes) using addr::psl directly',
    'All ordered lists of <= 2 (quick) / connected triples (thorough) of a 514-rule cosmetic alphabet (36 location forms x 10 bodies x ##/#@#) x 13 page hosts x 3 generichide configurations; hide selectors, procedural actions, exceptions, generichide and the injected script (multiset of invocations) compared.',
    'Only-negated locations with an action or +js body, and a negated location of one rule against another rule providing the same body, are Unspecified for that body.', 'DESIGN §4 C16'),
@@ -63,7 +63,7 @@ CHECKS = {
    'All 256x256 permission pairs directly and through the full engine path; every dependency graph on 3 nodes (110 592 base graphs) x node permissions x injection lists in every order through the public get_scriptlet_resources (hash order enumerated, not drawn); every argument string of <= 3 (quick) / 4 (thorough) symbols over 13 symbols x 8 spellings x 3 positions; all pairs of 20 +js bodies for exceptions.',
    'Ambiguous +js spellings (unbalanced quotes, text after a closing quote, runs of backslashes before a separator) are Unspecified; the emitted literal must still be well-formed.', 'DESIGN §4 C18'),
  'C19': ('SX+BX', 'model_checking', 'stateless DFS over thread interleavings of the real Sync build with iterative preemption bounding (CHESS-style), blocking decided by the real Mutex::try_lock through a cfg-guarded seam; plus cross-configuration differential',
-   'Five thread plans (2x2, 3x1, 3x2, 2x3, mixed) of real OS threads on one shared engine, all schedules with <= 2 (quick) / <= 3-4 (thorough) preemptions; every answer compared with the sequential answer; deadlock, panic and poisoning detected; every violating schedule replayed twice. The single-thread build writes answer hashes for 2 551 rule lists, the thread-safe build recomputes them.',
+   'Six thread plans (2x2, 3x1, 3x2, 2x3, mixed queries, URL-rewriting rules) of real OS threads on one shared engine, all schedules with <= 2 (quick) / <= 3-4 (thorough) preemptions; every answer compared with the sequential answer; deadlock, panic and poisoning detected; every violating schedule replayed twice. The single-thread build writes answer hashes for 3 722 rule lists x 1 881 requests, the thread-safe build recomputes them.',
    'No preemption between scheduling points (sound if nothing shared is mutated outside the lock: checked by a non-exhaustive free-running Miri pass in the thorough tier). Weak memory not modelled.', 'DESIGN §4 C19, §5'),
  'C20': ('BX', 'model_checking', T_BX + 'post-conditions on every emitted rule (ASCII, Safari regex-subset recogniser, ordering, filters_used) + inclusion against the real matcher',
    'Every pattern body of <= 6 (quick) / 7 (thorough) symbols x anchor modes x option frames as singleton sets, the single-edit neighbourhood of a 135-rule alphabet, and all ordered lists of <= 2/3 alphabet rules.',
@@ -101,9 +101,9 @@ manifest = {
  },
  'engines': [
    {'name': 'BX', 'path': 'harness/src/core.rs', 'serves_properties': [i for i in ids if i in CHECKS and 'BX' in CHECKS[i][0]], 'kind_free_text': 'bounded-exhaustive differential explorer: mixed-radix enumeration of finite input universes on the real code, 16 worker threads, reference model or differential oracle per case'},
-   {'name': 'HX', 'path': 'harness/src/hx.rs', 'serves_properties': [i for i in ids if i in CHECKS and 'HX' in CHECKS[i][0]], 'kind_free_text': 'history explorer: DFS over all operation sequences up to a depth on fresh real engines, step-by-step comparison with a reference model; deterministic LIFO allocator'},
-   {'name': 'SX', 'path': 'harness/src/sx.rs', 'serves_properties': [i for i in ids if i in CHECKS and 'SX' in CHECKS[i][0]], 'kind_free_text': 'schedule explorer: stateless DFS over thread interleavings of the real Sync build with iterative preemption bounding, blocking decided by the real Mutex::try_lock'},
-   {'name': 'FX', 'path': 'harness/src/fx.rs', 'serves_properties': [i for i in ids if i in CHECKS and 'FX' in CHECKS[i][0]], 'kind_free_text': 'fault enumerator: every prefix / bit flip / structural substitution of valid serialized buffers, loaded in child processes under an allocation ceiling'},
+   {'name': 'HX', 'path': 'harness/src/bin/c06.rs', 'serves_properties': [i for i in ids if i in CHECKS and 'HX' in CHECKS[i][0]], 'kind_free_text': 'history explorer: DFS over all operation sequences up to a depth on fresh real engines, step-by-step comparison with a reference model; deterministic LIFO allocator'},
+   {'name': 'SX', 'path': 'harness/src/bin/c19.rs', 'serves_properties': [i for i in ids if i in CHECKS and 'SX' in CHECKS[i][0]], 'kind_free_text': 'schedule explorer: stateless DFS over thread interleavings of the real Sync build with iterative preemption bounding, blocking decided by the real Mutex::try_lock'},
+   {'name': 'FX', 'path': 'harness/src/bin/c10.rs', 'serves_properties': [i for i in ids if i in CHECKS and 'FX' in CHECKS[i][0]], 'kind_free_text': 'fault enumerator: every prefix / bit flip / structural substitution of valid serialized buffers, loaded in child processes under an allocation ceiling'},
  ],
  'checks': checks,
  'not_applicable': na,
